@@ -81,6 +81,48 @@ public:
   VarFilter() {}
   VarFilter(VarFilter&& o) : kind(o.kind), a(std::move(o.a)) {}
   VarFilter& operator=(VarFilter&& o) { if(this != &o) { kind = o.kind; a = std::move(o.a); } return *this; }
+  // life-cycle operations: forwarded to the real atom that is held
+  void clone(const VarFilter& o, CloneMode cm = CloneMode::Deep)
+  {
+    kind = o.kind;
+    switch(kind)
+    {
+      case K_NONE: a.none.clone(o.a.none, cm); break;
+      case K_UNIT: a.unit.clone(o.a.unit, cm); break;
+      case K_MEAN: a.mean.clone(o.a.mean, cm); break;
+      case K_SLIP: if constexpr (BS > 1) a.slip.clone(o.a.slip, cm); break;
+    }
+  }
+  VarFilter clone(CloneMode cm = CloneMode::Deep) const
+  {
+    VarFilter r; r.kind = kind;
+    switch(kind)
+    {
+      case K_NONE: r.a.none = a.none.clone(cm); break;
+      case K_UNIT: r.a.unit = a.unit.clone(cm); break;
+      case K_MEAN: r.a.mean = a.mean.clone(cm); break;
+      case K_SLIP: if constexpr (BS > 1) r.a.slip = a.slip.clone(cm); break;
+    }
+    return r;
+  }
+  template<class DT2, class IT2> void convert(const VarFilter<DT2, IT2, BS>& o)
+  {
+    kind = o.kind;
+    // MeanFilterBlocked::convert and the cross-type UnitFilterBlocked::convert cannot be instantiated on the
+    // pinned tree (see Filters!Offered); the specification never requests them
+    switch(kind)
+    {
+      case K_NONE: a.none.convert(o.a.none); break;
+      case K_UNIT:
+        if constexpr (BS == 1 || std::is_same<DT, DT2>::value) a.unit.convert(o.a.unit);
+        else throw std::runtime_error("cross-type UnitFilterBlocked::convert does not compile");
+        break;
+      case K_MEAN:
+        if constexpr (BS == 1) a.mean.convert(o.a.mean); else throw std::runtime_error("MeanFilterBlocked::convert does not compile");
+        break;
+      case K_SLIP: if constexpr (BS > 1) a.slip.convert(o.a.slip); break;
+    }
+  }
 #define C06_FWD(OP) \
   void filter_##OP(VectorType& v) const \
   { \
@@ -153,18 +195,30 @@ UnitFilterBlocked<DT, IT, BS> build_unitb(const vj::Value& f, Index nb, int mode
   }
   return u;
 }
+// the slip filter object also carries the vertex normal vector _nu (vidx/vnu of the specification), which
+// lives on nb + 1 "vertices" and differs from the filter vector in indices and values
 template<class DT, class IT, int BS>
 SlipFilter<DT, IT, BS> build_slip(const vj::Value& f, Index nb, int mode)
 {
   IVec idx = f["idx"].ints(), nu = f["nu"].ints();
   if(idx.empty() && mode == 1) return SlipFilter<DT, IT, BS>();
-  SlipFilter<DT, IT, BS> s(nb, nb);
+  SlipFilter<DT, IT, BS> s(nb + 1, nb);
   for(std::size_t q = 0; q < idx.size(); ++q)
   {
     std::size_t t = (mode == 0) ? idx.size() - 1 - q : q;
     Tiny::Vector<DT, BS> x;
     for(int c = 0; c < BS; ++c) x[c] = DT(nu[t * BS + c]);
     s.add(IT(idx[t]), x);
+  }
+  if(f.has("vidx"))
+  {
+    IVec vidx = f["vidx"].ints(), vnu = f["vnu"].ints();
+    for(std::size_t t = 0; t < vidx.size(); ++t)
+    {
+      Tiny::Vector<DT, BS> x;
+      for(int c = 0; c < BS; ++c) x[c] = DT(vnu[t * BS + c]);
+      s.get_nu()(Index(vidx[t]), x);
+    }
   }
   return s;
 }
@@ -235,8 +289,8 @@ static std::string vvs(const std::vector<IVec>& v) { std::string s; for(const au
 
 struct Ctx
 {
-  const vj::Value& c; std::string why;
-  explicit Ctx(const vj::Value& cc) : c(cc) {}
+  const vj::Value& c; std::string why; std::string lc;
+  explicit Ctx(const vj::Value& cc) : c(cc) { lc = cc.get_str("lc", "none"); }
   bool fail(const std::string& w) { if(why.empty()) why = w; return false; }
 };
 
@@ -257,61 +311,136 @@ bool two_calls(Ctx& k, const F& flt, V& vec, bool tuple, const std::string& tag)
   return true;
 }
 
+// ------------------------------------------------------------------------------------------------
+// life-cycle: the filter that is applied is obtained from the built one by clone / convert / move
+// ------------------------------------------------------------------------------------------------
+template<class D, class I> struct TT { typedef D DT; typedef I IT; };
+// which convert calls of a class can be instantiated at all
+template<class FT> struct LcCaps { static constexpr bool conv_same = true, conv_other = true; };
+template<class D, class I, int B> struct LcCaps<MeanFilterBlocked<D, I, B>> { static constexpr bool conv_same = false, conv_other = false; };
+template<class D, class I, int B> struct LcCaps<UnitFilterBlocked<D, I, B>> { static constexpr bool conv_same = true, conv_other = false; };
+template<class D, class I, int B> struct LcCaps<FilterChain<SlipFilter<D, I, B>, UnitFilterBlocked<D, I, B>>> { static constexpr bool conv_same = true, conv_other = false; };
+template<class D, class I, int B> struct LcCaps<FilterChain<UnitFilterBlocked<D, I, B>, SlipFilter<D, I, B>>> { static constexpr bool conv_same = true, conv_other = false; };
+template<class DT, class IT> struct OtherT { typedef TT<float, std::uint32_t> Type; };
+template<> struct OtherT<float, std::uint32_t> { typedef TT<double, std::uint64_t> Type; };
+
+// mk(TT<D,I>()) builds the filter of the behaviour for data/index types D, I; use(f) applies it.
+// clone_into (the in-place clone(other, mode)) is only requested for classes whose in-place clone can be instantiated.
+template<class DT, class IT, class MK, class USE>
+bool with_lifecycle(Ctx& k, MK mk, USE use, const std::string& tag)
+{
+  typedef decltype(mk(TT<DT, IT>())) FT;
+  const std::string& lc = k.lc;
+  if(lc == "none") { FT f = mk(TT<DT, IT>()); return use(f, tag); }
+  if(lc == "clone_deep" || lc == "clone_weak" || lc == "clone_shallow")
+  {
+    CloneMode cm = lc == "clone_deep" ? CloneMode::Deep : (lc == "clone_weak" ? CloneMode::Weak : CloneMode::Shallow);
+    FT f = mk(TT<DT, IT>());
+    FT g = f.clone(cm);
+    return use(g, tag + "/" + lc);          // the source stays alive (shared arrays)
+  }
+  if constexpr (LcCaps<FT>::conv_same)
+  {
+    if(lc == "convert_same") { FT f = mk(TT<DT, IT>()); FT g; g.convert(f); return use(g, tag + "/" + lc); }
+  }
+  if constexpr (LcCaps<FT>::conv_other)
+  {
+    if(lc == "convert_other")
+    {
+      typedef typename OtherT<DT, IT>::Type O;
+      auto f = mk(O()); FT g; g.convert(f);
+      return use(g, tag + "/" + lc);
+    }
+  }
+  if(lc == "move_ctor") { FT f = mk(TT<DT, IT>()); FT g(std::move(f)); return use(g, tag + "/" + lc); }
+  if(lc == "move_assign") { FT f = mk(TT<DT, IT>()); FT g; g = std::move(f); return use(g, tag + "/" + lc); }
+  return k.fail("life-cycle operation " + lc + " is not offered by this class");
+}
+template<class DT, class IT, class MK, class USE>
+bool with_lifecycle_ci(Ctx& k, MK mk, USE use, const std::string& tag)     // ... including the in-place clone
+{
+  typedef decltype(mk(TT<DT, IT>())) FT;
+  if(k.lc == "clone_into") { FT f = mk(TT<DT, IT>()); FT g; g.clone(f, CloneMode::Deep); return use(g, tag + "/clone_into"); }
+  return with_lifecycle<DT, IT>(k, mk, use, tag);
+}
+
+// the vertex normal vector of a slip filter after the life-cycle operation
+template<class DT, class IT, int BS>
+bool slip_nu_is(Ctx& k, const SlipFilter<DT, IT, BS>& s, const vj::Value& f, const std::string& tag)
+{
+  if(!f.has("vidx")) return true;
+  IVec vidx = f["vidx"].ints(), vnu = f["vnu"].ints();
+  const auto& nu = s.get_nu();
+  if(nu.used_elements() != Index(vidx.size())) return k.fail(tag + ": vertex normal vector has " + std::to_string(nu.used_elements()) + " entries, expected " + std::to_string(vidx.size()));
+  for(std::size_t t = 0; t < vidx.size(); ++t)
+  {
+    if((long long)nu.indices()[t] != vidx[t]) return k.fail(tag + ": vertex normal vector index " + std::to_string(t));
+    for(int c = 0; c < BS; ++c) if(double(nu.elements()[t][c]) != double(vnu[t * BS + c])) return k.fail(tag + ": vertex normal vector value " + std::to_string(t));
+  }
+  return true;
+}
+
 template<class DT, class IT, int BS>
 bool run_flat(Ctx& k, int mode, const std::string& tag)
 {
-  typedef VarFilter<DT, IT, BS> VF;
   const vj::Value& f = k.c["f"]; const std::string kind = f["kind"].as_str();
   Index nb = Index(k.c["n"].as_int()); long long den = k.c["den"].as_int();
   IVec v0 = k.c["v0"].ints();
   auto vec = VecOf<DT, IT, BS>::make(v0, den);
+  auto use = [&](const auto& g, const std::string& t) { return two_calls(k, g, vec, false, t); };
   if(kind == "chain")
   {
     const vj::Value& fs = f["fs"];
-    if(fs.size() == 1) { FilterChain<VF> ch; ch.template at<0>() = build_var<DT, IT, BS>(fs[0], nb, mode); return two_calls(k, ch, vec, false, tag + "/chain1"); }
+    if(fs.size() == 1)
+      return with_lifecycle<DT, IT>(k, [&](auto t) { typedef decltype(t) T; typedef VarFilter<typename T::DT, typename T::IT, BS> VF;
+        FilterChain<VF> ch; ch.template at<0>() = build_var<typename T::DT, typename T::IT, BS>(fs[0], nb, mode); return ch; }, use, tag + "/chain1");
     if(fs.size() == 2)
-    {
-      if(mode == 1)
-      {
-        // the public two-part constructor
-        FilterChain<VF, VF> ch(build_var<DT, IT, BS>(fs[0], nb, mode), build_var<DT, IT, BS>(fs[1], nb, mode));
-        return two_calls(k, ch, vec, false, tag + "/chain2c");
-      }
-      FilterChain<VF, VF> ch; ch.template at<0>() = build_var<DT, IT, BS>(fs[0], nb, mode); ch.template at<1>() = build_var<DT, IT, BS>(fs[1], nb, mode);
-      return two_calls(k, ch, vec, false, tag + "/chain2");
-    }
+      return with_lifecycle<DT, IT>(k, [&](auto t) { typedef decltype(t) T; typedef typename T::DT D; typedef typename T::IT I; typedef VarFilter<D, I, BS> VF;
+        if(mode == 1) return FilterChain<VF, VF>(build_var<D, I, BS>(fs[0], nb, mode), build_var<D, I, BS>(fs[1], nb, mode));   // the public two-part constructor
+        FilterChain<VF, VF> ch; ch.template at<0>() = build_var<D, I, BS>(fs[0], nb, mode); ch.template at<1>() = build_var<D, I, BS>(fs[1], nb, mode); return ch; }, use, tag + "/chain2");
     if(fs.size() == 3)
-    {
-      FilterChain<VF, VF, VF> ch; ch.template at<0>() = build_var<DT, IT, BS>(fs[0], nb, mode); ch.template at<1>() = build_var<DT, IT, BS>(fs[1], nb, mode);
-      ch.template at<2>() = build_var<DT, IT, BS>(fs[2], nb, mode);
-      return two_calls(k, ch, vec, false, tag + "/chain3");
-    }
+      return with_lifecycle<DT, IT>(k, [&](auto t) { typedef decltype(t) T; typedef typename T::DT D; typedef typename T::IT I; typedef VarFilter<D, I, BS> VF;
+        FilterChain<VF, VF, VF> ch; ch.template at<0>() = build_var<D, I, BS>(fs[0], nb, mode); ch.template at<1>() = build_var<D, I, BS>(fs[1], nb, mode);
+        ch.template at<2>() = build_var<D, I, BS>(fs[2], nb, mode); return ch; }, use, tag + "/chain3");
     return k.fail("unsupported chain length");
   }
   if(kind == "seq")
   {
     const vj::Value& fs = f["fs"]; const vj::Value& names = f["names"];
-    FilterSequence<VF> sq;
-    if(mode == 0) for(std::size_t j = 0; j < fs.size(); ++j) sq.push_back(std::make_pair(String(names[j].as_str()), build_var<DT, IT, BS>(fs[j], nb, mode)));
-    else
-    {
+    bool dup = false;
+    bool ok = with_lifecycle<DT, IT>(k, [&](auto t) { typedef decltype(t) T; typedef typename T::DT D; typedef typename T::IT I; typedef VarFilter<D, I, BS> VF;
+      FilterSequence<VF> sq;
+      if(mode == 0) { for(std::size_t j = 0; j < fs.size(); ++j) sq.push_back(std::make_pair(String(names[j].as_str()), build_var<D, I, BS>(fs[j], nb, mode))); return sq; }
       // create the named slots first (in order), then fill them in reverse order through find_or_add
       std::deque<String> ids; for(std::size_t j = 0; j < fs.size(); ++j) ids.push_back(String(names[j].as_str()));
       FilterSequence<VF> s2(ids);
-      for(std::size_t j = fs.size(); j-- > 0;) s2.find_or_add(String(names[j].as_str())) = build_var<DT, IT, BS>(fs[j], nb, mode);
-      if(s2.size() != fs.size()) return k.fail(tag + ": find_or_add created a duplicate slot");
-      sq = std::move(s2);
-    }
-    return two_calls(k, sq, vec, false, tag + "/seq");
+      for(std::size_t j = fs.size(); j-- > 0;) s2.find_or_add(String(names[j].as_str())) = build_var<D, I, BS>(fs[j], nb, mode);
+      if(s2.size() != fs.size()) dup = true;
+      return s2; }, use, tag + "/seq");
+    if(dup) return k.fail(tag + ": find_or_add created a duplicate slot");
+    return ok;
   }
   // a single atom: called directly on the real class
-  VF a = build_var<DT, IT, BS>(f, nb, mode);
-  switch(a.kind)
+  if(kind == "none")
   {
-    case K_NONE: return two_calls(k, a.a.none, vec, false, tag + "/none");
-    case K_UNIT: return two_calls(k, a.a.unit, vec, false, tag + "/unit");
-    case K_MEAN: return two_calls(k, a.a.mean, vec, false, tag + "/mean");
-    case K_SLIP: if constexpr (BS > 1) return two_calls(k, a.a.slip, vec, false, tag + "/slip");
+    if constexpr (BS == 1) return with_lifecycle_ci<DT, IT>(k, [&](auto t) { typedef decltype(t) T; return NoneFilter<typename T::DT, typename T::IT>(); }, use, tag + "/none");
+    else return with_lifecycle_ci<DT, IT>(k, [&](auto t) { typedef decltype(t) T; return NoneFilterBlocked<typename T::DT, typename T::IT, BS>(); }, use, tag + "/none");
+  }
+  if(kind == "unit")
+  {
+    if constexpr (BS == 1) return with_lifecycle_ci<DT, IT>(k, [&](auto t) { typedef decltype(t) T; return build_unit1<typename T::DT, typename T::IT>(f, nb, mode); }, use, tag + "/unit");
+    else return with_lifecycle_ci<DT, IT>(k, [&](auto t) { typedef decltype(t) T; return build_unitb<typename T::DT, typename T::IT, BS>(f, nb, mode); }, use, tag + "/unit");
+  }
+  if(kind == "mean")
+  {
+    if constexpr (BS == 1) return with_lifecycle_ci<DT, IT>(k, [&](auto t) { typedef decltype(t) T; return build_mean1<typename T::DT, typename T::IT>(f, mode); }, use, tag + "/mean");
+    else return with_lifecycle_ci<DT, IT>(k, [&](auto t) { typedef decltype(t) T; return build_meanb<typename T::DT, typename T::IT, BS>(f, mode); }, use, tag + "/mean");
+  }
+  if(kind == "slip")
+  {
+    if constexpr (BS > 1)
+      return with_lifecycle_ci<DT, IT>(k, [&](auto t) { typedef decltype(t) T; return build_slip<typename T::DT, typename T::IT, BS>(f, nb, mode); },
+        [&](const SlipFilter<DT, IT, BS>& g, const std::string& t) { return two_calls(k, g, vec, false, t) && ((mode == 1 && f["idx"].size() == 0) || slip_nu_is(k, g, f, t)); }, tag + "/slip");
   }
   return k.fail("unknown atom");
 }
@@ -326,16 +455,22 @@ bool run_real_pairs(Ctx& k, int mode, const std::string& tag)
   const std::string k0 = f0["kind"].as_str(), k1 = f1["kind"].as_str();
   Index nb = Index(k.c["n"].as_int()); long long den = k.c["den"].as_int();
   auto vec = VecOf<DT, IT, BS>::make(k.c["v0"].ints(), den);
+  auto use = [&](const auto& g, const std::string& t) { return two_calls(k, g, vec, false, t); };
   if constexpr (BS == 1)
   {
-    if(k0 == "unit" && k1 == "mean") { FilterChain<UnitFilter<DT, IT>, MeanFilter<DT, IT>> ch(build_unit1<DT, IT>(f0, nb, mode), build_mean1<DT, IT>(f1, mode)); return two_calls(k, ch, vec, false, tag + "/real<unit,mean>"); }
-    if(k0 == "mean" && k1 == "unit") { FilterChain<MeanFilter<DT, IT>, UnitFilter<DT, IT>> ch(build_mean1<DT, IT>(f0, mode), build_unit1<DT, IT>(f1, nb, mode)); return two_calls(k, ch, vec, false, tag + "/real<mean,unit>"); }
-    if(k0 == "unit" && k1 == "unit") { FilterChain<UnitFilter<DT, IT>, UnitFilter<DT, IT>> ch(build_unit1<DT, IT>(f0, nb, mode), build_unit1<DT, IT>(f1, nb, mode)); return two_calls(k, ch, vec, false, tag + "/real<unit,unit>"); }
+    if(k0 == "unit" && k1 == "mean") return with_lifecycle<DT, IT>(k, [&](auto t) { typedef decltype(t) T; typedef typename T::DT D; typedef typename T::IT I;
+      return FilterChain<UnitFilter<D, I>, MeanFilter<D, I>>(build_unit1<D, I>(f0, nb, mode), build_mean1<D, I>(f1, mode)); }, use, tag + "/real<unit,mean>");
+    if(k0 == "mean" && k1 == "unit") return with_lifecycle<DT, IT>(k, [&](auto t) { typedef decltype(t) T; typedef typename T::DT D; typedef typename T::IT I;
+      return FilterChain<MeanFilter<D, I>, UnitFilter<D, I>>(build_mean1<D, I>(f0, mode), build_unit1<D, I>(f1, nb, mode)); }, use, tag + "/real<mean,unit>");
+    if(k0 == "unit" && k1 == "unit") return with_lifecycle<DT, IT>(k, [&](auto t) { typedef decltype(t) T; typedef typename T::DT D; typedef typename T::IT I;
+      return FilterChain<UnitFilter<D, I>, UnitFilter<D, I>>(build_unit1<D, I>(f0, nb, mode), build_unit1<D, I>(f1, nb, mode)); }, use, tag + "/real<unit,unit>");
   }
   else
   {
-    if(k0 == "slip" && k1 == "unit") { FilterChain<SlipFilter<DT, IT, BS>, UnitFilterBlocked<DT, IT, BS>> ch(build_slip<DT, IT, BS>(f0, nb, mode), build_unitb<DT, IT, BS>(f1, nb, mode)); return two_calls(k, ch, vec, false, tag + "/real<slip,unit>"); }
-    if(k0 == "unit" && k1 == "slip") { FilterChain<UnitFilterBlocked<DT, IT, BS>, SlipFilter<DT, IT, BS>> ch(build_unitb<DT, IT, BS>(f0, nb, mode), build_slip<DT, IT, BS>(f1, nb, mode)); return two_calls(k, ch, vec, false, tag + "/real<unit,slip>"); }
+    if(k0 == "slip" && k1 == "unit") return with_lifecycle<DT, IT>(k, [&](auto t) { typedef decltype(t) T; typedef typename T::DT D; typedef typename T::IT I;
+      return FilterChain<SlipFilter<D, I, BS>, UnitFilterBlocked<D, I, BS>>(build_slip<D, I, BS>(f0, nb, mode), build_unitb<D, I, BS>(f1, nb, mode)); }, use, tag + "/real<slip,unit>");
+    if(k0 == "unit" && k1 == "slip") return with_lifecycle<DT, IT>(k, [&](auto t) { typedef decltype(t) T; typedef typename T::DT D; typedef typename T::IT I;
+      return FilterChain<UnitFilterBlocked<D, I, BS>, SlipFilter<D, I, BS>>(build_unitb<D, I, BS>(f0, nb, mode), build_slip<D, I, BS>(f1, nb, mode)); }, use, tag + "/real<unit,slip>");
   }
   return true;
 }
@@ -343,48 +478,37 @@ bool run_real_pairs(Ctx& k, int mode, const std::string& tag)
 template<class DT, class IT, int BS>
 bool run_tuple(Ctx& k, int mode, const std::string& tag)
 {
-  typedef VarFilter<DT, IT, 1> VF1; typedef VarFilter<DT, IT, BS> VFB;
   const vj::Value& f = k.c["f"]; const std::string fam = k.c["fam"].as_str();
   long long den = k.c["den"].as_int();
   Index n0 = Index(k.c["n"][0].as_int()), n1 = Index(k.c["n"][1].as_int());
   IVec a0 = k.c["v0"][0].ints(), a1 = k.c["v0"][1].ints();
+  typedef TupleVector<typename VecOf<DT, IT, 1>::Type, typename VecOf<DT, IT, BS>::Type> TV;
+  TV vec(VecOf<DT, IT, 1>::make(a0, den), VecOf<DT, IT, BS>::make(a1, den));
+  auto use = [&](const auto& g, const std::string& t) { return two_calls(k, g, vec, true, t); };
   if(fam == "tuple")
-  {
-    typedef TupleVector<typename VF1::VectorType, typename VFB::VectorType> TV;
-    TV vec(VecOf<DT, IT, 1>::make(a0, den), VecOf<DT, IT, BS>::make(a1, den));
-    if(mode == 1)
-    {
-      TupleFilter<VF1, VFB> tf(build_var<DT, IT, 1>(f["fs"][0], n0, mode), build_var<DT, IT, BS>(f["fs"][1], n1, mode));
-      return two_calls(k, tf, vec, true, tag + "/tuplec");
-    }
-    TupleFilter<VF1, VFB> tf; tf.template at<0>() = build_var<DT, IT, 1>(f["fs"][0], n0, mode); tf.template at<1>() = build_var<DT, IT, BS>(f["fs"][1], n1, mode);
-    return two_calls(k, tf, vec, true, tag + "/tuple");
-  }
+    return with_lifecycle_ci<DT, IT>(k, [&](auto t) { typedef decltype(t) T; typedef typename T::DT D; typedef typename T::IT I; typedef VarFilter<D, I, 1> VF1; typedef VarFilter<D, I, BS> VFB;
+      if(mode == 1) return TupleFilter<VF1, VFB>(build_var<D, I, 1>(f["fs"][0], n0, mode), build_var<D, I, BS>(f["fs"][1], n1, mode));
+      TupleFilter<VF1, VFB> tf; tf.template at<0>() = build_var<D, I, 1>(f["fs"][0], n0, mode); tf.template at<1>() = build_var<D, I, BS>(f["fs"][1], n1, mode); return tf; }, use, tag + "/tuple");
   if(fam == "nest")
-  {
-    typedef FilterChain<VF1, VF1> CH;
-    typedef TupleVector<typename VF1::VectorType, typename VFB::VectorType> TV;
-    TV vec(VecOf<DT, IT, 1>::make(a0, den), VecOf<DT, IT, BS>::make(a1, den));
-    TupleFilter<CH, VFB> tf;
-    tf.template at<0>().template at<0>() = build_var<DT, IT, 1>(f["fs"][0]["fs"][0], n0, mode);
-    tf.template at<0>().template at<1>() = build_var<DT, IT, 1>(f["fs"][0]["fs"][1], n0, mode);
-    tf.template at<1>() = build_var<DT, IT, BS>(f["fs"][1], n1, mode);
-    return two_calls(k, tf, vec, true, tag + "/nest");
-  }
+    return with_lifecycle<DT, IT>(k, [&](auto t) { typedef decltype(t) T; typedef typename T::DT D; typedef typename T::IT I; typedef VarFilter<D, I, 1> VF1; typedef VarFilter<D, I, BS> VFB;
+      TupleFilter<FilterChain<VF1, VF1>, VFB> tf;
+      tf.template at<0>().template at<0>() = build_var<D, I, 1>(f["fs"][0]["fs"][0], n0, mode);
+      tf.template at<0>().template at<1>() = build_var<D, I, 1>(f["fs"][0]["fs"][1], n0, mode);
+      tf.template at<1>() = build_var<D, I, BS>(f["fs"][1], n1, mode); return tf; }, use, tag + "/nest");
   return k.fail("unknown tuple family " + fam);
 }
 
 template<class DT, class IT>
 bool run_power(Ctx& k, int mode, const std::string& tag)
 {
-  typedef VarFilter<DT, IT, 1> VF1;
   const vj::Value& f = k.c["f"]; long long den = k.c["den"].as_int();
   Index n0 = Index(k.c["n"][0].as_int()), n1 = Index(k.c["n"][1].as_int());
-  PowerVector<typename VF1::VectorType, 2> vec;
+  PowerVector<typename VecOf<DT, IT, 1>::Type, 2> vec;
   vec.template at<0>() = VecOf<DT, IT, 1>::make(k.c["v0"][0].ints(), den);
   vec.template at<1>() = VecOf<DT, IT, 1>::make(k.c["v0"][1].ints(), den);
-  PowerFilter<VF1, 2> pf; pf.template at<0>() = build_var<DT, IT, 1>(f["fs"][0], n0, mode); pf.template at<1>() = build_var<DT, IT, 1>(f["fs"][1], n1, mode);
-  return two_calls(k, pf, vec, true, tag + "/power");
+  auto use = [&](const auto& g, const std::string& t) { return two_calls(k, g, vec, true, t); };
+  return with_lifecycle<DT, IT>(k, [&](auto t) { typedef decltype(t) T; typedef typename T::DT D; typedef typename T::IT I;
+    PowerFilter<VarFilter<D, I, 1>, 2> pf; pf.template at<0>() = build_var<D, I, 1>(f["fs"][0], n0, mode); pf.template at<1>() = build_var<D, I, 1>(f["fs"][1], n1, mode); return pf; }, use, tag + "/power");
 }
 
 template<class DT, class IT>
